@@ -26,6 +26,48 @@ type WSConn struct {
 	mu    sync.Mutex
 	tr    []Event
 	done  chan struct{}
+	tcp   net.Conn
+}
+
+// recordingListener remembers the accepted TCP connections so that the peer can
+// end a WebSocket connection at TCP level (FIN), which the websocket package cannot do.
+type recordingListener struct {
+	net.Listener
+	mu    sync.Mutex
+	conns map[string]net.Conn
+}
+
+func (l *recordingListener) Accept() (net.Conn, error) {
+	c, err := l.Listener.Accept()
+	if err == nil {
+		l.mu.Lock()
+		l.conns[c.RemoteAddr().String()] = c
+		l.mu.Unlock()
+	}
+	return c, err
+}
+
+func (l *recordingListener) get(remote string) net.Conn {
+	l.mu.Lock()
+	defer l.mu.Unlock()
+	return l.conns[remote]
+}
+
+// DropTCP ends the connection at TCP level without a WebSocket close frame:
+// FIN first (everything written before is still delivered), full close after
+// the client closed or the time-out.
+func (c *WSConn) DropTCP(timeout time.Duration) {
+	c.add(Event{Dir: "note", Kind: "tcp-fin"})
+	if tc, ok := c.tcp.(*net.TCPConn); ok {
+		_ = tc.CloseWrite()
+		deadline := time.Now().Add(timeout)
+		for time.Now().Before(deadline) {
+			if ev := c.Recv(time.Until(deadline)); ev.Kind == "eof" || ev.Kind == "timeout" {
+				break
+			}
+		}
+	}
+	_ = c.ws.Close(websocket.StatusGoingAway, "bye")
 }
 
 // WSServer is the listening WebSocket peer.
@@ -45,6 +87,7 @@ func ListenWS(subprotocol string, handler func(c *WSConn)) (*WSServer, error) {
 	if err != nil {
 		return nil, err
 	}
+	rl := &recordingListener{Listener: ln, conns: map[string]net.Conn{}}
 	s := &WSServer{ln: ln, Handler: handler, URL: "ws://" + ln.Addr().String() + "/xmpp-websocket"}
 	mux := http.NewServeMux()
 	mux.HandleFunc("/", func(w http.ResponseWriter, r *http.Request) {
@@ -58,7 +101,7 @@ func ListenWS(subprotocol string, handler func(c *WSConn)) (*WSServer, error) {
 		}
 		wc.SetReadLimit(1 << 20)
 		s.mu.Lock()
-		c := &WSConn{Index: len(s.conns), ws: wc, start: time.Now(), done: make(chan struct{})}
+		c := &WSConn{Index: len(s.conns), ws: wc, start: time.Now(), done: make(chan struct{}), tcp: rl.get(r.RemoteAddr)}
 		s.conns = append(s.conns, c)
 		s.mu.Unlock()
 		s.wg.Add(1)
@@ -72,7 +115,7 @@ func ListenWS(subprotocol string, handler func(c *WSConn)) (*WSServer, error) {
 		s.Handler(c)
 	})
 	s.srv = &http.Server{Handler: mux}
-	go func() { _ = s.srv.Serve(ln) }()
+	go func() { _ = s.srv.Serve(rl) }()
 	return s, nil
 }
 
